@@ -114,6 +114,132 @@ func (fr *Frame) nativeCall(b *ssa.BasicBlock, st *State, name string, callee *s
 		fc.addFact("true", sEq(r, sAnd(sEq(sApp("sl_len", xs), sApp("sl_len", ys)),
 			fmt.Sprintf("(forall ((i Int)) (=> (and (<= 0 i) (< i (sl_len %s))) (= (select (select %s (sl_arr %s)) (+ (sl_off %s) i)) (select (select %s (sl_arr %s)) (+ (sl_off %s) i)))))", xs, hp, xs, xs, hp, ys, ys))))
 		return Val{S: r, Typ: resT}, true
+	case "(encoding/binary.bigEndian).PutUint64", "(encoding/binary.littleEndian).PutUint64":
+		fr.trust(name + ": writes the 8 bytes of the value; panics if len < 8")
+		bs := fr.scalar(args[1])
+		fr.ob("index", src+":len", b, sApp(">=", sApp("sl_len", bs), "8"), pos)
+		fr.specNative("be64")
+		fr.specNative("bcat")
+		h := heapElem(types.Typ[types.Uint8])
+		fc.regVar(h, arr2Sort("Int"))
+		old := fc.get(st, h)
+		row := fc.freshConst("putrow", arrSort("Int"))
+		oldrow := sSel(old, sApp("sl_arr", bs))
+		off := sApp("sl_off", bs)
+		enc := "be64"
+		if strings.Contains(name, "little") {
+			enc = "le64"
+			fr.specNative("le64")
+		}
+		fc.addFact("true", sAnd(
+			sEq(sApp("bseq", row, off, "8"), sApp("u_"+enc, fr.scalar(args[2]))),
+			fmt.Sprintf("(forall ((j Int)) (! (=> (or (< j %s) (>= j (+ %s 8))) (= (select %s j) (select %s j))) :pattern ((select %s j))))", off, off, row, oldrow, row),
+			fmt.Sprintf("(forall ((j Int)) (! (and (<= 0 (select %s j)) (<= (select %s j) 255)) :pattern ((select %s j))))", row, row, row)))
+		fr.wrRow(st, h, sApp("sl_arr", bs), row)
+		return Val{IsAg: true, Typ: resT}, true
+	case "github.com/multiformats/go-multihash.Decode":
+		fr.trust("multihash.Decode: pure; result.Code = mhcode(bytes), error iff not a well-formed multihash")
+		fr.specNative("mhcode")
+		fr.specNative("mhok")
+		r := fr.alloc(st, "decoded")
+		pt := resT.(*types.Tuple).At(0).Type()
+		dt := pt.(*types.Pointer).Elem()
+		l := &Loc{Kind: LObj, Base: r, Root: dt, Elem: dt}
+		fr.storeLoc(st, l, fr.havocVal(dt, "dmh"))
+		bs := fr.bseqOf(st, args[0])
+		ok := sApp("u_mhok", bs)
+		codeLoc, _, _ := fr.specFieldLoc(Val{S: r, Typ: pt}, "Code")
+		fr.storeLoc(st, codeLoc, Val{S: sApp("u_mhcode", bs), Typ: types.Typ[types.Uint64]})
+		fc.addFact("true", rangeFact(types.Typ[types.Uint64], sApp("u_mhcode", bs)))
+		errv := fc.freshConst("mherr", "Int")
+		fc.addFact("true", sEq(sEq(errv, "0"), ok))
+		resv := fc.freshConst("mhres", "Int")
+		fc.addFact("true", sEq(resv, sIte(ok, r, "0")))
+		return Val{IsAg: true, Typ: resT, Agg: []Val{{S: resv, Typ: pt}, {S: errv, Typ: resT.(*types.Tuple).At(1).Type()}}}, true
+	case "github.com/multiformats/go-multihash.Sum":
+		fr.trust("multihash.Sum(data, code, -1): fresh multihash bytes mhsum(data, code); error iff the code is unsupported")
+		fr.specNative("mhsum")
+		fr.specNative("mhsupported")
+		code := fr.scalar(args[1])
+		ok := sApp("u_mhsupported", code)
+		out := fr.newSliceFresh(st, types.Typ[types.Uint8], fc.freshConst("mhlen", "Int"), resT.(*types.Tuple).At(0).Type(), "mh")
+		fc.addFact("true", sEq(fr.bseqOf(st, out), sApp("u_mhsum", fr.bseqOf(st, args[0]), code)))
+		errv := fc.freshConst("mherr", "Int")
+		fc.addFact("true", sEq(sEq(errv, "0"), ok))
+		resv := fc.freshConst("mhres", "Int")
+		fc.addFact("true", sEq(resv, sIte(ok, out.S, "0")))
+		return Val{IsAg: true, Typ: resT, Agg: []Val{{S: resv, Typ: out.Typ}, {S: errv, Typ: resT.(*types.Tuple).At(1).Type()}}}, true
+	case "github.com/fxamacker/cbor.Unmarshal", "encoding/json.Unmarshal":
+		fr.trust(name + ": decodes into the object passed (its fields are overwritten), allocating fresh objects for everything it points to; error iff the input is malformed (uninterpreted); does not panic on any input")
+		fr.specNative("cborok")
+		fr.specNative("cbormsg")
+		fr.specNative("cborsig")
+		data := fr.bseqOf(st, args[0])
+		ok := sApp("u_cborok", data)
+		if strings.HasPrefix(name, "encoding/json") {
+			fr.specNative("jsonok")
+			ok = sApp("u_jsonok", data)
+		}
+		pay, pt := fr.ifaceTarget(args[1])
+		if pt == nil {
+			fc.assumptions[name+" into a destination of unknown dynamic type: only fields at that reference are havocked, in the heaps known so far"] = true
+			fr.havocAnyFields(st, sApp("ipay", fr.scalar(args[1])))
+		} else {
+			tv := Val{S: pay, Typ: pt}
+			fr.havocReach(st, tv)
+			if ptr, isPtr := pt.Underlying().(*types.Pointer); isPtr {
+				if su, isStruct := ptr.Elem().Underlying().(*types.Struct); isStruct && su.NumFields() == 2 && su.Field(0).Name() == "Msg" && su.Field(1).Name() == "Sig" {
+					m := fr.specField(tv, "Msg", &SpecEnv{fr: fr, now: st, old: st})
+					sg := fr.specField(tv, "Sig", &SpecEnv{fr: fr, now: st, old: st})
+					fc.addFact("true", sImp(ok, sAnd(sEq(fr.bseqOf(st, m), sApp("u_cbormsg", data)), sEq(fr.bseqOf(st, sg), sApp("u_cborsig", data)))))
+				}
+			}
+		}
+		errv := fc.freshConst("decerr", "Int")
+		fc.addFact("true", sEq(sEq(errv, "0"), ok))
+		na := fc.freshConst(hAlloc, "Int")
+		fc.addFact("true", sApp(">=", na, fc.get(st, hAlloc)))
+		fc.logWrite(hAlloc, "")
+		st.vars[hAlloc] = na
+		fr.flushClosed(st)
+		return Val{S: errv, Typ: resT}, true
+	case "encoding/asn1.Unmarshal":
+		fr.trust("encoding/asn1.Unmarshal(b, &struct{R,S *big.Int}): error iff b does not start with a SEQUENCE of exactly two INTEGERs; on success R, S are fresh non-nil objects and rest is the remainder")
+		fr.specNative("asn1ok")
+		fr.specNative("asn1R")
+		fr.specNative("asn1S")
+		fr.specNative("asn1rest")
+		data := fr.bseqOf(st, args[0])
+		ok := sApp("u_asn1ok", data)
+		pay, pt := fr.ifaceTarget(args[1])
+		if pt != nil {
+			tv := Val{S: pay, Typ: pt}
+			fr.havocReach(st, tv)
+			if ptr, isPtr := pt.Underlying().(*types.Pointer); isPtr {
+				if su, isStruct := ptr.Elem().Underlying().(*types.Struct); isStruct && su.NumFields() == 2 && su.Field(0).Name() == "R" {
+					env := &SpecEnv{fr: fr, now: st, old: st}
+					r := fr.specField(tv, "R", env)
+					sg := fr.specField(tv, "S", env)
+					fc.addFact("true", sImp(ok, sAnd(sNot(sEq(r.S, "0")), sNot(sEq(sg.S, "0")), sEq(fr.bv(st, r.S), sApp("u_asn1R", data)), sEq(fr.bv(st, sg.S), sApp("u_asn1S", data)))))
+				}
+			}
+		} else {
+			fr.havocAnyFields(st, sApp("ipay", fr.scalar(args[1])))
+		}
+		tup := resT.(*types.Tuple)
+		rest := fr.newSliceFresh(st, types.Typ[types.Uint8], fc.freshConst("restlen", "Int"), tup.At(0).Type(), "rest")
+		fc.addFact("true", sImp(ok, sEq(sApp("sl_len", rest.S), sApp("u_asn1rest", data))))
+		errv := fc.freshConst("asn1err", "Int")
+		fc.addFact("true", sEq(sEq(errv, "0"), ok))
+		return Val{IsAg: true, Typ: resT, Agg: []Val{rest, {S: errv, Typ: tup.At(1).Type()}}}, true
+	case "crypto/ecdsa.Verify":
+		fr.trust("crypto/ecdsa.Verify(pub, hash, r, s): pure; dereferences pub, r and s (nil panics); result uninterpreted ecdsaok(pub, hash, r, s)")
+		fr.specNative("ecdsaok")
+		pk := fr.scalar(args[0])
+		fr.nilOb(b, src+":pub", pk, pos)
+		fr.nilOb(b, src+":r", fr.scalar(args[2]), pos)
+		fr.nilOb(b, src+":s", fr.scalar(args[3]), pos)
+		return Val{S: sApp("u_ecdsaok", pk, fr.bseqOf(st, args[1]), fr.bv(st, fr.scalar(args[2])), fr.bv(st, fr.scalar(args[3]))), Typ: resT}, true
 	case "sync/atomic.AddUint64":
 		fr.trust("sync/atomic.AddUint64: atomic wrapping add, returns the new value")
 		l := fr.locOf(args[0])
@@ -378,7 +504,8 @@ func (fr *Frame) bigMethod(b *ssa.BasicBlock, st *State, m string, args []Val, r
 		ln := sApp("bytelen", sApp("absI", x))
 		fc.addFact("true", sApp(">=", ln, "0"))
 		out := fr.newSliceFresh(st, types.Typ[types.Uint8], ln, resT, "bytes")
-		fc.addFact("true", sEq(sApp("os2ip", fr.bseqOf(st, out)), sApp("absI", x)))
+		fr.specNative("i2osp")
+		fc.addFact("true", sAnd(sEq(fr.bseqOf(st, out), sApp("u_i2osp", sApp("absI", x))), sEq(sApp("os2ip", sApp("u_i2osp", sApp("absI", x))), sApp("absI", x))))
 		return out, true
 	case "SetBytes":
 		need()
@@ -464,9 +591,62 @@ func (fr *Frame) nativeInvoke(b *ssa.BasicBlock, st *State, it types.Type, m *ty
 	return Val{}, false
 }
 
+// functions shared between native models and the contract language (uninterpreted)
+var specNatives = map[string]struct {
+	n   int
+	isB bool
+}{
+	"bcat": {2, false}, "be64": {1, false}, "le64": {1, false}, "i2osp": {1, false}, "mhsum": {2, false}, "mhcode": {1, false}, "mhok": {1, true}, "mhsupported": {1, true},
+	"asn1ok": {1, true}, "asn1R": {1, false}, "asn1S": {1, false}, "asn1rest": {1, false}, "ecdsaok": {4, true},
+	"cborok": {1, true}, "cbormsg": {1, false}, "cborsig": {1, false}, "cborval": {1, false}, "b64": {1, false}, "unb64": {1, false}, "unb64ok": {1, true},
+	"der": {2, false}, "dercode": {2, false}, "jsonok": {1, true},
+}
+
+func (fr *Frame) specNative(name string) {
+	sn := specNatives[name]
+	res := "Int"
+	if sn.isB {
+		res = "Bool"
+	}
+	fr.declUninterp(name, sn.n, res)
+}
+
 type encryptRec struct {
 	guard    string
 	src      string
 	srcSlice string
 	state    *State
+}
+
+// ifaceTarget: for an interface value built by MakeInterface from a pointer, return payload term and its static type
+func (fr *Frame) ifaceTarget(v Val) (string, types.Type) {
+	s := fr.scalar(v)
+	if !strings.HasPrefix(s, "(mkiface ") {
+		return "", nil
+	}
+	rest := strings.TrimPrefix(s, "(mkiface ")
+	i := strings.Index(rest, " ")
+	if i < 0 {
+		return "", nil
+	}
+	var tag int
+	fmt.Sscanf(rest[:i], "%d", &tag)
+	if tag <= 0 || tag > len(fr.fc.eng.tagTypes) {
+		return "", nil
+	}
+	pay := strings.TrimSuffix(rest[i+1:], ")")
+	return pay, fr.fc.eng.tagTypes[tag-1]
+}
+
+// havocAnyFields: havoc row r in every field heap known so far (destination of unknown struct type)
+func (fr *Frame) havocAnyFields(st *State, r string) {
+	fc := fr.fc
+	for name, sort := range fc.varSort {
+		if strings.HasPrefix(name, "F:") {
+			inner := strings.TrimSuffix(strings.TrimPrefix(sort, "(Array Int "), ")")
+			hv := fc.freshConst("hv", inner)
+			fr.wr1(st, name, r, hv)
+			fc.pendingVals = append(fc.pendingVals, Val{S: hv, Typ: heapValType[name]})
+		}
+	}
 }
